@@ -14,6 +14,9 @@ type VOpts struct {
 	ZeroBias bool // every leaf is zero with probability 1/2 (C20)
 	Boundary bool // leaves are taken from the boundary set of their type with probability 1/2 (C19)
 	MaxElems int
+	// KeyPool: strings that are sometimes used as map keys (the attribute names of the schema: a key that
+	// coincides with the name of a sibling attribute is a classic source of mixed-up lookups)
+	KeyPool []string
 }
 
 var (
@@ -263,11 +266,17 @@ func (g *vgen) value(typ reflect.Type, depth int) reflect.Value {
 			m := reflect.MakeMap(typ)
 			for i := 0; i < n; i++ {
 				var key string
-				switch rapid.IntRange(0, 6).Draw(t, "keyk") {
+				switch rapid.IntRange(0, 7).Draw(t, "keyk") {
 				case 0:
 					key = ""
 				case 1:
 					key = rapid.String().Draw(t, "ukey")
+				case 2:
+					if len(g.o.KeyPool) > 0 {
+						key = rapid.SampledFrom(g.o.KeyPool).Draw(t, "poolkey")
+						break
+					}
+					fallthrough
 				default:
 					key = rapid.StringMatching(`[a-z]{1,3}`).Draw(t, "key")
 				}
@@ -334,8 +343,14 @@ func sortTypes(ts []reflect.Type) {
 
 // GenStruct draws a value of the message struct type st; the result is a pointer to the struct.
 func GenStruct(t *rapid.T, st reflect.Type, o VOpts) reflect.Value {
+	if o.KeyPool == nil {
+		o.KeyPool = keyPools[st]
+	}
 	g := &vgen{t: t, o: o}
 	p := reflect.New(st)
 	p.Elem().Set(g.structValue(st, 0))
 	return p
 }
+
+// keyPools: struct type of a root -> attribute names of its schema (filled when the case is loaded).
+var keyPools = map[reflect.Type][]string{}
